@@ -16,6 +16,8 @@ fn family_for(prop: &str) -> &'static dyn Family {
         "C01" | "C02" | "C04" | "C05" => &scen::factor::FactorFamily,
         "C11" => &scen::relstore::RelstoreFamily,
         "C19" => &scen::lattice::LatticeFamily,
+        "C14" => &scen::lanczos::LanczosFamily,
+        "C18" => &scen::clsgrp::ClsgrpFamily,
         _ => {
             eprintln!("property {prop} has no simulated check (see MANIFEST.json not_applicable)");
             std::process::exit(2);
@@ -24,7 +26,7 @@ fn family_for(prop: &str) -> &'static dyn Family {
 }
 
 fn all_families() -> Vec<&'static dyn Family> {
-    vec![&scen::factor::FactorFamily, &scen::relstore::RelstoreFamily, &scen::lattice::LatticeFamily]
+    vec![&scen::factor::FactorFamily, &scen::relstore::RelstoreFamily, &scen::lattice::LatticeFamily, &scen::lanczos::LanczosFamily, &scen::clsgrp::ClsgrpFamily]
 }
 
 fn arg_val(args: &[String], name: &str) -> Option<String> {
@@ -113,6 +115,37 @@ fn main() {
             let idx: u64 = arg_val(&args, "--idx").unwrap().parse().unwrap();
             println!("{}", family_for(&prop).describe(&prop, tier, seed, idx));
             0
+        }
+        "selftest-oracles" => {
+            use oracles::forms::*;
+            let mut bad = 0;
+            for (d, h) in [(23u64, 3u64), (47, 5), (71, 7), (163, 1), (10148, 60), (424708, 64), (1411012, 124), (2402548, 176), (672772578839, 959482), (4133106580052, 615040)] {
+                let t0 = std::time::Instant::now();
+                let got = class_number_by_counting(d);
+                println!("h(-{d}) = {got} (expected {h}) {:.3}s", t0.elapsed().as_secs_f64());
+                if got != h {
+                    bad += 1;
+                }
+                // every prime form to the power h is the identity
+                let dd = -(d as i128);
+                for p in [2u64, 3, 5, 7, 11, 13, 17, 19, 23, 29, 31] {
+                    let dm = (p - d % p) % p;
+                    let d16 = (16 - d % 16) % 16;
+                    if let Some(f) = prime_form::<i128>(dd, dm, d16, p) {
+                        if f.disc() != dd || !f.pow(h as u128, dd).is_identity(dd) {
+                            println!("  prime form {p}: {f:?} ^h is not the identity");
+                            bad += 1;
+                        }
+                        let g = f.compose(&f.inverse());
+                        if !g.is_identity(dd) {
+                            println!("  f * f^-1 != 1 for p={p}");
+                            bad += 1;
+                        }
+                    }
+                }
+            }
+            println!("factor_u128(615040) = {:?}", factor_u128(615040));
+            if bad > 0 { 1 } else { 0 }
         }
         "replay" => driver::replay_file(&all_families(), &PathBuf::from(&args[2])),
         "minimise" => driver::minimise_file(&all_families(), &PathBuf::from(&args[2]), &PathBuf::from(&args[3])),
